@@ -1072,12 +1072,19 @@ def copyTransactionsFromTo(source, destination):
                         prefix='CTFT',
                         suffix='.tmp', dir=destination.fshelper.temp_dir)
                     os.close(fd)
-                    with open(blobfilename, 'rb') as sf:
-                        with open(name, 'wb') as df:
-                            utils.cp(sf, df)
-                    destination.restoreBlob(
-                        record.oid, record.tid, record.data,
-                        name, record.data_txn, trans)
+                    try:
+                        with open(blobfilename, 'rb') as sf:
+                            with open(name, 'wb') as df:
+                                utils.cp(sf, df)
+                        destination.restoreBlob(
+                            record.oid, record.tid, record.data,
+                            name, record.data_txn, trans)
+                    except BaseException:
+                        # Don't leave the copy behind in the destination's
+                        # blob directory.
+                        if os.path.exists(name):
+                            os.remove(name)
+                        raise
                 else:
                     destination.restore(record.oid, record.tid, record.data,
                                         '', record.data_txn, trans)
